@@ -15,7 +15,7 @@ theorem no_hash_iteration : Gen.hashIterSites = [c!"bind.rs:bind_object:HashSet.
 /-- the interpreter's only uses of the environment and the file system: the argument list, the current directory (to
     locate the script), reading the script, and exiting -/
 theorem env_uses_as_expected :
-    Gen.envUses = [c!"main.rs:env::args", c!"main.rs:env::current_dir", c!"main.rs:fs::read_to_string", c!"main.rs:process::exit"] := by
+    Gen.envUses = [c!"env::args", c!"env::current_dir", c!"fs::read_to_string", c!"process::exit"] := by
   decide
 
 /-- the model's `run` is a function of the fuel, the path text and the source text and nothing else (by type); stated for
